@@ -474,7 +474,7 @@ def gen_render_case(rng, exact=None):
     case.update({"kw": kw, "ops": ops, "exact": exact,
                  "route": rng.choice(["own", "own", "arg"] if exact else ["own", "arg", "list", "frames"]),
                  "limits": None if rng.random() < 0.7 else [-10, 40, -10, 25],
-                 "focus": (not exact) and rng.random() < 0.15})
+                 "focus": (not exact) and rng.random() < 0.15, "yaml": rng.random() < 0.12})
     return case
 
 
@@ -527,6 +527,21 @@ def run_render_case(case):
     warnings.simplefilter("ignore")
     sc, pps = build_world(case)
     p = build_params(case)
+    via_yaml = False
+    if case.get("yaml"):
+        # the parameters are saved as a stylesheet and loaded again (BaseParam.save / MPDrawParams.load): what is judged
+        # is the drawing against the LOADED parameters; a tree the stylesheet format refuses is used as built
+        import shutil
+        import tempfile
+        d = tempfile.mkdtemp(prefix="verif-c19-", dir="/var/tmp")
+        try:
+            p.save(os.path.join(d, "p.yaml"))
+            p = DP.MPDrawParams.load(os.path.join(d, "p.yaml"))
+            via_yaml = True
+        except Exception:  # noqa
+            pass
+        finally:
+            shutil.rmtree(d, ignore_errors=True)
     fig, ax = plt.subplots()
     info = {"drawn": 0, "skipped": 0}
     try:
@@ -622,7 +637,7 @@ def run_render_case(case):
             + zl(sorted(ids(k) for k in obs_patches)) + " "
             + zl([la.lanelet_id for la in sc.lanelet_network.lanelets]) + " " + qb(fill) + " " + zl(sorted(obs_lanelets)) + " "
             + zl(list(pps.planning_problem_dict)) + " " + zl(sorted(obs_pps)) + ")")
-    return fail, term, info
+    return fail, (None if via_yaml else term), info     # the model rebuilds the parameters from the assignments
 
 
 def zl(xs):
